@@ -525,6 +525,15 @@ def rule_r23_collect(ctx, prog, roots, rule="R23"):
                         nm = callee_name(ct)
                         if (nm, ct["callee"].get("krate")) in ORDER_UNSPECIFIED and not (ct["callee"].get("trait") or "").endswith("Iterator"):
                             via = via or nm
+                        else:
+                            # handed to a private helper that passes it on to such a traversal (`zip_fold(a, b, init, f)`)
+                            hb = prog.local_callee_body(ct)
+                            if hb is not None and not hb.is_closure and hb.key not in prog.exported:
+                                pidx = [i_ + 1 for i_, a in enumerate(parent.call_arg_exprs(cbb)) if isinstance(strip(a), tuple) and strip(a)[:3] == me]
+                                for hbb, ht in hb.calls():
+                                    if (callee_name(ht), ht["callee"].get("krate")) in ORDER_UNSPECIFIED and not (ht["callee"].get("trait") or "").endswith("Iterator"):
+                                        if any(isinstance(strip(x), tuple) and strip(x)[:2] == ("param", pi_) for x in hb.call_arg_exprs(hbb) for pi_ in pidx):
+                                            via = via or callee_name(ht)
                 cur = parent
             if via is None:
                 continue
